@@ -6,7 +6,7 @@
 //! and a type >= 64) — on the real `HashMapTreeZone`.  After every step: add's Ok/Err (not the error
 //! kind) equals the reference (owner at/below apex, class matches, TTL equals the existing RRset's);
 //! iter_by_node yields every node once incl. empty non-terminals with exactly its de-duplicated RRsets;
-//! iter_by_rrset yields exactly those RRsets; soa()/ns() are the apex SOA/NS RRsets; and all lookups
+//! iter_by_rrset yields exactly those RRsets; soa()/ns() are the apex SOA/NS RRsets; and all (checked) lookups
 //! of 20 names agree with the reference built from the ACCEPTED records only — so a rejected add
 //! changes no lookup and no iteration (no stray empty nodes).
 #[path = "../zone_ref.rs"]
@@ -64,7 +64,7 @@ fn run(apex: &'static str, seq: &[usize], names: &[QName]) -> u64 {
             if got != want { fail(&format!("add accepted (true) / rejected (false) the record {r:?}"), &input, &got, &want); }
         }
         if let Err((what, got, want)) = compare_iteration(&z, &m) { fail(&format!("{what} after the adds"), &input, &got, &want); }
-        match compare_lookups(&z, &m, names, &TYPES) {
+        match compare_lookups(&z, &m, names, &TYPES, false) {
             Ok(n) => n,
             Err((what, got, want)) => fail(&format!("{what} after the adds (reference = accepted records only)"), &input, &got, &want),
         }
@@ -78,19 +78,22 @@ fn run(apex: &'static str, seq: &[usize], names: &[QName]) -> u64 {
 fn main() {
     let names = qnames(&QUERIES);
     let mut cases = 0u64;
-    // every sequence of length 0..=LEN exactly once; each is run from a fresh zone, so the state after
-    // every step of every sequence is observed (as the end of the shorter sequence)
-    let mut seq: Vec<usize> = vec![];
-    loop {
-        cases += 1 + run("ap.ex.", &seq, &names);
-        if seq.len() <= 2 { cases += run("Ap.EX.", &seq, &names); }
-        if seq.len() < LEN { seq.push(0); continue; }
-        loop {
-            match seq.pop() {
-                None => done(cases, "all add sequences of length <= 4 over a 20-record universe (incl. each rejection reason), full iteration + soa/ns + lookups of 20 names x 6 types + addrs + all x search_below_cuts x checked/unchecked after each; sequences of length <= 2 also under a mixed-case apex"),
-                Some(i) if i + 1 < OPS.len() => { seq.push(i + 1); break; }
-                Some(_) => {}
+    // every sequence of length 0..=LEN exactly once, shortest first; each is run from a fresh zone, so the
+    // state after every step of every sequence is observed (as the end of the shorter sequence)
+    for len in 0..=LEN {
+        let mut seq = vec![0usize; len];
+        'odometer: loop {
+            cases += 1 + run("ap.ex.", &seq, &names);
+            if len <= 2 { cases += run("Ap.EX.", &seq, &names); }
+            let mut k = len;
+            loop {
+                if k == 0 { break 'odometer; }
+                k -= 1;
+                seq[k] += 1;
+                if seq[k] < OPS.len() { break; }
+                seq[k] = 0;
             }
         }
     }
+    done(cases, "all add sequences of length <= 4 over a 20-record universe (incl. each rejection reason), full iteration + soa/ns + lookups of 20 names x 6 types + addrs + all x search_below_cuts (checked lookups) after each; sequences of length <= 2 also under a mixed-case apex");
 }
